@@ -415,10 +415,11 @@ pub fn run(run: &mut Run) {
             start_body.push(Stmt::Expr(callv(&name, vec![])));
         }
         // everything once more in the same run: a result must not depend on how many comparisons came before it
-        let again = start_body.clone();
-        for _ in 1..ROUNDS {
-            start_body.extend(again.clone());
-        }
+        ts.push(top_fn("all_once", vec![], RetAnn::Void, start_body));
+        let start_body = vec![
+            def("round", int(0)),
+            Stmt::Loop(Some(bin(BinOp::Lt, var("round"), int(ROUNDS as i64))), vec![Stmt::Expr(callv("all_once", vec![])), Stmt::Assign { target: var("round"), op: Some(BinOp::Add), value: int(1) }]),
+        ];
         ts.push(start_fn(start_body));
         let mut p = Program { tops: ts };
         acc.programs += 1;
